@@ -136,6 +136,7 @@ pub fn run(args: &[String]) {
     use std::io::Write as _;
     let stdout = std::io::stdout();
     for case in cases.iter().skip(start) {
+        crate::wd::case_begin();
         let mut out = String::new();
         run_case(case, &mut out);
         let mut lk = stdout.lock();
